@@ -135,6 +135,11 @@ func (includes *Includes) UnmarshalYAML(node *yaml.Node) error {
 			// Set the include namespace
 			v.Namespace = keyNode.Value
 
+			// An include that is defined twice would silently replace the first one
+			if _, ok := includes.Get(keyNode.Value); ok {
+				return errors.NewTaskfileDecodeError(nil, keyNode).WithMessage("include %q is defined more than once", keyNode.Value)
+			}
+
 			// Add the include to the ordered map
 			includes.Set(keyNode.Value, &v)
 		}
